@@ -317,6 +317,77 @@ _op = Op('linalg:eigh_close', _gen_eigh_close, _run_eigh_gap, 'linalg')
 _op.only = ('C12',)
 reg(_op)
 
+# the absolute value as operator / method (abs(x), x.fabs(), algopy.absolute) at base values that are EXACTLY zero in some entries: whatever the
+# convention there, a coefficient of order d must not depend on coefficients of order > d nor on other directions
+def _gen_abs_zero(rng, Dmax=6, Pmax=3):
+    D = rng.randint(3, max(3, min(Dmax, 5))); P = rng.randint(1, Pmax)
+    shp = rng.choice([(3,), (2, 2), (4,)])
+    x = _rand_utpm(rng, D, P, shp)
+    flat = x.reshape((D, P, -1))
+    for p in range(P):
+        for e in range(flat.shape[2]):
+            r = rng.random()
+            if r < 0.45:
+                flat[0, p, e] = 0.0
+                if r < 0.2 and D >= 3:
+                    flat[1, p, e] = 0.0           # the first non-vanishing coefficient is of order 2
+    x[D - 1] = numpy.where(x[D - 1] == 0, 0.75, x[D - 1]) * numpy.where(numpy.arange(x[D - 1].size).reshape(x[D - 1].shape) % 2 == 0, -1, 1)
+    return dict(op='unary:abs_zero_base', inputs=[x.tolist()], form=rng.choice(['abs', 'fabs', 'absolute']))
+
+
+def _run_abs_zero(algopy, case, inputs):
+    x = algopy.UTPM(_as(inputs[0]))
+    y = abs(x) if case['form'] == 'abs' else (x.fabs() if case['form'] == 'fabs' else algopy.absolute(x))
+    return [numpy.asarray(y.data)]
+
+
+_op = Op('unary:abs_zero_base', _gen_abs_zero, _run_abs_zero, 'elem')
+_op.only = ('C11', 'C12', 'C14')
+reg(_op)
+
+# directions whose base points are NEARLY equal (relative differences 1e-6) or of tiny magnitude (1e-9): "the same base point as the
+# previous direction" must be decided exactly, or not at all
+def _gen_close_dirs(name, kind):
+    def gen(rng, Dmax=6, Pmax=3):
+        D = rng.randint(2, 4); P = 3; n = rng.randint(2, 3)
+        A = _rand_utpm(rng, D, P, (n, n))
+        if kind in ('spd', 'sym'):
+            A = 0.5 * (A + A.transpose((0, 1, 3, 2)))
+        A0 = _spd_or_general(rng, n, kind)
+        B = numpy.array([[rng.randint(-4, 4) / 4 for _ in range(n)] for _ in range(n)]); B = 0.5 * (B + B.T)
+        mode = rng.choice(['nearly equal', 'nearly equal', 'tiny'])
+        for p in range(P):
+            A[0, p] = A0 + p * 4e-6 * B if mode == 'nearly equal' else (_spd_or_general(rng, n, kind) * 1e-9)
+        if mode == 'tiny':
+            A[1:] *= 1e-9
+        ins = [A.tolist()]
+        if name == 'solve':
+            ins.append(_rand_utpm(rng, D, P, (n, 2)).tolist())
+        return dict(op='linalg:%s_close_dirs' % name, inputs=ins, mode=mode)
+    return gen
+
+
+for _name, _kind in [('cholesky', 'spd'), ('inv', 'general'), ('solve', 'general'), ('det', 'general'), ('qr', 'general'), ('eigh', 'sym'), ('lu', 'general')]:
+    _op = Op('linalg:%s_close_dirs' % _name, _gen_close_dirs(_name, _kind), _run_linalg(_name), 'linalg')
+    _op.only = ('C11',)
+    reg(_op)
+
+# magnitudes at which an intermediate product leaves the float64 range although the result is ordinary: log|det| of matrices with entries
+# around 1e-90 / 1e+90 (det = 1e-360 / 1e+360), inv / solve / det of moderately scaled ones
+def _gen_logdet_extreme(rng, Dmax=6, Pmax=3):
+    D = rng.randint(1, 3); P = rng.randint(1, 2); n = 4
+    A = _rand_utpm(rng, D, P, (n, n))
+    for p in range(P):
+        A[0, p] = _spd_or_general(rng, n, 'general')
+    A *= rng.choice([1e-90, 1e90, 1e-60, 1e70])
+    return dict(op='linalg:logdet_extreme', inputs=[A.tolist()])
+
+
+_op = Op('linalg:logdet_extreme', _gen_logdet_extreme, lambda algopy, case, inputs: [numpy.asarray(algopy.logdet(algopy.UTPM(_as(inputs[0]))).data)], 'linalg')
+_op.ref0 = lambda case, ins0: [numpy.linalg.slogdet(ins0[0])[1]]
+_op.only = ('C10', 'C11')
+reg(_op)
+
 # trace / transpose / sum of RECTANGULAR matrices (tall with >= 2 more rows than columns, wide)
 def _gen_rect(rng, Dmax=6, Pmax=3):
     D = rng.randint(1, max(1, min(Dmax, 4))); P = rng.randint(1, Pmax)
